@@ -29,7 +29,7 @@ RULE = (
     "query digest)."
 )
 TIERS = {
-    "quick": {"runs": 200, "budget_s": 45, "min_runs": 4, "run_timeout_s": 240},
+    "quick": {"runs": 200, "budget_s": 60, "min_runs": 4, "run_timeout_s": 240},
     "thorough": {"runs": 20000, "budget_s": 780, "min_runs": 40, "run_timeout_s": 600},
 }
 COMPONENTS_REAL = [
@@ -56,10 +56,15 @@ def gen_tree(rng: Rng) -> dict:
     chdir_mode = rng.chance(0.4)
 
     def fill(d: str, depth: int) -> None:
+        # a quarter of the inner directories are "pure containers": no file of their own (or only
+        # non-SQL ones), just sub-directories - where an ignore/config file still has to apply
+        container = depth in (1, 2) and rng.chance(0.25)
         for fn in rng.sample(FILE_NAMES, rng.randint(0, 3)):
+            if container and not fn.endswith((".txt", ".j2")):
+                continue
             files[d + "/" + fn] = {"b64": b64(b"SELECT 1\n"), "mode": 0o644}
         if depth < 3:
-            names = rng.sample(DIR_NAMES, rng.randint(0, 2 if depth else 3))
+            names = rng.sample(DIR_NAMES, rng.randint(1 if container else 0, 2 if depth else 3))
             # sibling directories where one name is a string prefix of the other
             for a_, b_ in (("a", "a1"), ("sub", "sub2"), ("models", "models_v2")):
                 if a_ in names and b_ not in names and rng.chance(0.5):
@@ -99,7 +104,7 @@ def gen_tree(rng: Rng) -> dict:
                     pats.append(rng.choice(below_files))
             if not pats:
                 continue
-            how = rng.choice([".sqlfluffignore", ".sqlfluffignore", ".sqlfluffignore", ".sqlfluff", "pyproject.toml"])
+            how = rng.choice([".sqlfluffignore", ".sqlfluffignore", ".sqlfluff", "pyproject.toml"])
             if chdir_mode and d.count("/") == 1 and rng.chance(0.6):
                 how = ".sqlfluffignore"
             if d == "proj" and how == ".sqlfluff":
